@@ -79,7 +79,7 @@ def strip_undeclared(mm: MetaModel, tau: Dict, j: Any) -> Any:
 # ---------------------------------------------------------------------------------------------
 
 
-def replay_failed(live: Live, mm: MetaModel, res: hg.SiteResult, ob: vc.Obligation) -> Tuple[bool, Dict[str, Any]]:
+def replay_failed(live: Live, mm: MetaModel, res: hg.SiteResult, ob: vc.Obligation, success_only: bool = False) -> Tuple[bool, Dict[str, Any]]:
     site = res.site
     kind = ob.kind
     detail: Dict[str, Any] = {
@@ -130,6 +130,8 @@ def replay_failed(live: Live, mm: MetaModel, res: hg.SiteResult, ob: vc.Obligati
             return None
         if kind == "O0" and "raised" in out:
             return {"input": jv, "observed": out["raised"], "expected": "structuring succeeds (input is strictly valid for the union)"}
+        if kind == "O1" and success_only and "raised" in out:
+            return None  # the property speaks about successful structuring only
         if kind == "O1" and ("raised" in out or out.get("reading_problem")):
             return {"input": jv, "observed": out.get("raised") or out.get("reading_problem"), "result_shape": out.get("result_type"), "expected": "an instance of an alternative for which the input is valid"}
         if kind == "O2" and ("raised" in out or out.get("loss") or out.get("reading_problem")):
@@ -200,7 +202,7 @@ def _brief(out: Dict[str, Any]) -> Dict[str, Any]:
 # ---------------------------------------------------------------------------------------------
 
 
-def report_unions(run: Run, live: Live, mm: MetaModel, ua: UnionAnalysis, kinds: Set[str], what_for: Dict[str, str]) -> Dict[str, Any]:
+def report_unions(run: Run, live: Live, mm: MetaModel, ua: UnionAnalysis, kinds: Set[str], what_for: Dict[str, str], success_only: bool = False) -> Dict[str, Any]:
     """kinds ⊆ {'missing','O0','O1','O2','O3','cover'}; returns coverage counters."""
     n_ob = n_dis = 0
     backends: Dict[str, int] = {}
@@ -262,7 +264,13 @@ def report_unions(run: Run, live: Live, mm: MetaModel, ua: UnionAnalysis, kinds:
             if key in done:
                 continue
             done.add(key)
-            found, detail = replay_failed(live, mm, res, o)
+            found, detail = replay_failed(live, mm, res, o, success_only)
+            if success_only and o.kind == "O1" and not found:
+                # O1 is generated under the assumption that converter.structure(x, C) returns; here every concrete witness makes
+                # the real structuring raise, so nothing ill-typed is ever returned: not this property's subject (C01 / C14 report it)
+                n_ob -= 1
+                run.notes.append(f"{o.name}: refuted under the assumption that the nested converter.structure call returns, but structuring raises on every witness tried ({detail.get('native_search_inputs', 0)} inputs): outside a property about successful structuring")
+                continue
             detail["solver"] = o.backend
             detail["solver_output"] = (o.solver_output or "")[-1500:]
             detail["obligation_name"] = o.name
